@@ -2,6 +2,7 @@ package main
 
 import (
 	"fmt"
+	"regexp"
 	"strconv"
 	"strings"
 
@@ -15,6 +16,9 @@ import (
 	"github.com/nyaruka/goflow/excellent"
 	"github.com/nyaruka/goflow/excellent/types"
 	"github.com/nyaruka/goflow/flows"
+	"github.com/nyaruka/goflow/flows/engine"
+	"github.com/nyaruka/goflow/flows/events"
+	"github.com/nyaruka/goflow/flows/triggers"
 )
 
 func init() {
@@ -118,7 +122,9 @@ func encNodeOrNil(n contactql.QueryNode) string {
 // ---- generators ---------------------------------------------------------------------------
 
 var cqlValues = []string{"1 2", "10=20", "3\"4", "5(6", "7,5", "1-2", "12:30", "1.2.3", "1.", ".5", "1e5", "٣", "1.٣", "bob", "Bob Smith", "", "10", "3.5", "007", "M", "x y", "OR", "and", "name = \"x\"", "a\"b", "a\\", "\\", "a\\\\", "\"", ") OR (id = 1", "\" OR \"\" = \"",
-	"é中", "𝟏𝟐𝟑", "𝟏.𝟓", "𐒠𐒡", "１２", "१२.३", "1𝟐", "tel:+123", "+12065551212", "1-2", "a.b", "it's", "x@y.com", "2020-01-01", "\n", "\t x", "a\\\"", "\\\" OR name = \\\""}
+	"é中", "𝟏𝟐𝟑", "𝟏.𝟓", "𐒠𐒡", "１２", "१२.३", "1𝟐", "tel:+123", "+12065551212", "1-2", "a.b", "it's", "x@y.com", "2020-01-01", "\n", "\t x", "a\\\"", "\\\" OR name = \\\"",
+	// typographic quotation marks: characters of a value like any other
+	"x” OR name != “", "it’s", "„", "“quoted”", "‘a’ OR nick_name = ‘b’", "” AND gender = “M"}
 
 func genCQLValue(r *Rng) string {
 	if r.Chance(55) {
@@ -479,6 +485,7 @@ func runC14(c *Ctx) {
 			c.Sample(map[string]any{"check": "M3", "template": t.text, "v": v, "text": text})
 		}
 	}
+	c14EngineSubstitution(c, parse)
 }
 
 func shapeOf(dump string) string {
@@ -558,5 +565,91 @@ func hasBackslashClosedString(text string) bool {
 				return true
 			}
 		}
+	}
+}
+
+
+// M4-engine: the substitution as a session makes it — a start_session action whose contact_query is a template over the
+// message just received, under engines with every small and the default limit on evaluated text: the query the action hands
+// over (session_triggered.contact_query), when it is a query at all, has the template's conditions and no others, whatever
+// the length of the value (a value cut by the limit is still one value)
+func c14EngineSubstitution(c *Ctx, parse func(env envs.Environment, text string) (*contactql.ContactQuery, error, bool)) {
+	r := c.Rng
+	const assetsJSON = `{
+	  "channels": [{"uuid": "57f1078f-88aa-46f4-a59a-948a5739c03d", "name": "Android", "address": "+17036975131", "schemes": ["tel"], "roles": ["send", "receive"]}],
+	  "fields": [{"uuid": "d66a7823-eada-40e5-9a3a-57239d4690bf", "key": "gender", "name": "Gender", "type": "text"}, {"uuid": "d66a7823-eada-40e5-9a3a-57239d4690c0", "key": "nick_name", "name": "Nick", "type": "text"}],
+	  "flows": [
+	    {"uuid": "50c3706e-fedb-42c0-8eab-dda3335714b7", "name": "Starter", "spec_version": "13.6.0", "language": "eng", "type": "messaging", "revision": 1, "expire_after_minutes": 60, "localization": {},
+	     "nodes": [{"uuid": "72a1f5df-49f9-45df-94c9-d86f7ea064e5", "actions": [
+	        {"uuid": "9a1b2c3d-0000-4000-8000-000000000031", "type": "start_session", "flow": {"uuid": "b7cf0d83-f1c9-411c-96fd-c511a4cfa86d", "name": "Other"}, "contact_query": "%s", "exclusions": {}}],
+	       "exits": [{"uuid": "d7a36118-0a38-4b35-a7e4-ae89042f0d3c"}]}]},
+	    {"uuid": "b7cf0d83-f1c9-411c-96fd-c511a4cfa86d", "name": "Other", "spec_version": "13.6.0", "language": "eng", "type": "messaging", "revision": 1, "expire_after_minutes": 60, "localization": {}, "nodes": []}
+	  ]}`
+	type tpl struct{ text, shape string }
+	tpls := []tpl{
+		{`name = @input.text`, `c(attr,name,=)`},
+		{`gender = \"F\" AND name = @input.text AND nick_name != \"\"`, `and[c(field,gender,=) c(attr,name,=) c(field,nick_name,!=)]`},
+		{`name = @(input.text) OR nick_name = @input.text`, `or[c(attr,name,=) c(field,nick_name,=)]`},
+	}
+	valueRe := regexp.MustCompile(`,"(?:[^"\\]|\\.)*"\)`)
+	for i := 0; i < c.N(400, 12000); i++ {
+		t := Pick(r, tpls)
+		limit := Pick(r, []int{20, 40, 64, 100, 640, 10000})
+		head := Pick(r, []string{`x" OR name != `, `x\" OR name != `, `" OR gender = "M" OR name = "`, `a") OR (name != "`, `x" AND nick_name = `, genCQLValue(r) + ` " OR name != `})
+		fill := Pick(r, []string{"z", "zz z", `"`, `\`, `z"`, "é"})
+		n := limit + Pick(r, []int{-30, -10, -4, -3, -2, -1, 0, 1, 2, 3, 5, 20, 200})
+		value := head
+		for len([]rune(value)) < n {
+			value += fill
+		}
+		desc := map[string]any{"contact_query": strings.ReplaceAll(t.text, `\"`, `"`), "message_text": truncate(value, 300), "message_length": len([]rune(value)), "max_template_chars": limit}
+		var got string
+		ok := false
+		if c.Guard("M4-engine", "panic:session", desc, func() {
+			src, err := static.NewSource([]byte(fmt.Sprintf(assetsJSON, t.text)))
+			if err != nil {
+				return
+			}
+			env := envs.NewBuilder().Build()
+			sa, err := engine.NewSessionAssets(env, src, nil)
+			if err != nil {
+				return
+			}
+			eng := engine.NewBuilder().WithMaxTemplateChars(limit).Build()
+			contact := flows.NewEmptyContact(sa, "Ann", "eng", nil)
+			trig := triggers.NewBuilder(env, assets.NewFlowReference("50c3706e-fedb-42c0-8eab-dda3335714b7", "Starter"), contact).
+				Msg(flows.NewMsgIn("0d1c5a36-fff5-4a0f-a2c7-02f7c7f3c4a8", "tel:+12065550100", nil, value, nil)).Build()
+			_, sp, err := eng.NewSession(sa, trig)
+			if err != nil {
+				return
+			}
+			for _, e := range sp.Events() {
+				if st, isST := e.(*events.SessionTriggeredEvent); isST {
+					got, ok = st.ContactQuery, true
+				}
+			}
+		}) {
+			continue
+		}
+		c.Count("check:M4-engine")
+		if !ok {
+			c.Eval(fmt.Sprintf("M4|%d|no-session-triggered", limit))
+			continue
+		}
+		q, err, p := parse(envs.NewBuilder().Build(), got)
+		if p {
+			continue
+		}
+		outcome := "not-a-query"
+		if err == nil {
+			shape := valueRe.ReplaceAllString(dumpNode(q.Root()), ")")
+			outcome = "same-conditions"
+			if shape != t.shape {
+				outcome = "other-conditions"
+				desc["handed_over"], desc["conditions"], desc["expected_conditions"] = truncate(got, 400), truncate(shape, 300), t.shape
+				c.Fail("monitor", "M4-engine", "injection:cut-inside-value", "a value substituted into a contact query template by a session added, dropped or altered conditions", desc)
+			}
+		}
+		c.Eval(fmt.Sprintf("M4|%d|%v|%s", limit, len([]rune(value)) > limit, outcome))
 	}
 }
